@@ -84,6 +84,11 @@ struct host_query {
 
   /* Track nodata responses to possibly override final result */
   size_t                nodata_cnt;
+
+  /* Set when one of the two requests of an AF_UNSPEC lookup ended with
+   * ARES_ECANCELLED / ARES_EDESTRUCTION while the other had not been issued
+   * yet (ares_cancel() called from a callback that ran during the send) */
+  ares_status_t         abort_status;
 };
 
 static const struct ares_addrinfo_hints default_hints = {
@@ -537,6 +542,14 @@ static void host_callback(void *arg, ares_status_t status, size_t timeouts,
     }
   }
 
+  if (hquery->remaining &&
+      (status == ARES_EDESTRUCTION || status == ARES_ECANCELLED)) {
+    /* The other request of the pair is still counted.  If it has not been
+     * issued yet, next_dns_lookup() must not issue it: the lookup has been
+     * cancelled. */
+    hquery->abort_status = status;
+  }
+
   if (!hquery->remaining) {
     if (status == ARES_EDESTRUCTION || status == ARES_ECANCELLED) {
       /* must make sure we don't do next_lookup() on destroy or cancel,
@@ -724,6 +737,17 @@ static ares_bool_t next_dns_lookup(struct host_query *hquery)
       hquery->remaining += 2;
       ares_query_nolock(hquery->channel, name, ARES_CLASS_IN, ARES_REC_TYPE_A,
                         host_callback, hquery, &hquery->qid_a);
+      /* hquery is still valid here: the AAAA request is counted in
+       * remaining.  If the channel was cancelled while the A request was
+       * being sent (a callback run from there called ares_cancel()), end the
+       * lookup instead of issuing a request the cancel could not see. */
+      if (hquery->abort_status != ARES_SUCCESS) {
+        hquery->remaining--;
+        if (!hquery->remaining) {
+          end_hquery(hquery, hquery->abort_status);
+        }
+        break;
+      }
       ares_query_nolock(hquery->channel, name, ARES_CLASS_IN,
                         ARES_REC_TYPE_AAAA, host_callback, hquery,
                         &hquery->qid_aaaa);
